@@ -1,12 +1,23 @@
 (* Property C11 (failures are reported as documented and leave objects unchanged and usable):
-   theorems only.  LV.Gen.ErrnoGen is regenerated by translate/errno_table.py from
-   src/vnaerr.h, src/vnaerr_verror.c, src/vnaerr.3 and the four z0 accessors on every run;
-   LV.Err.ContractModel holds the argument-checking prologues as coded (tied to the library by
-   checks/C11.py: exhaustive comparison with harness/err_harness.c over small dimensions). *)
+   theorems only.  LV.Gen.ErrnoGen is regenerated on every run by translate/errno_table.py (the errno
+   table of _vnaerr_verror, the manual-page table, the z0 port comparison operators, the clean-up calls)
+   and translate/errno_orders.py (for every modelled function: the ORDER of its handle tests, refusing
+   argument checks, early exits and writes, and whether its NULL test precedes every dereference).
+   The models of LV.Err.* hold what each check tests, as coded; a step of an object is a run of the
+   check / write machine of LV.Err.OrderModel over the body put together from the generated order.  The
+   models are tied to the library by checks/C11.py (exhaustive small-scope comparison with
+   harness/err_harness.c).
+
+   Reading guide.  "*_orders_checks_first" theorems are facts about the generated orders of the working
+   tree (they stop holding when a C function writes before it has finished checking); the
+   "*_refused_unchanged" theorems have that fact as a premise and hold for every order.  "model_variant_*"
+   theorems are about hand-written orders that match no current code: they show that the premises are
+   needed.  "*_satisfiable" theorems instantiate all hypotheses of the theorems before them. *)
 Require Import List ZArith Bool.
 Import ListNotations.
-Require Import LV.Err.ErrBase LV.Gen.ErrnoGen LV.Err.ContractModel LV.Err.ContractProofs.
-Require Import LV.Err.RefutedModel LV.Err.ContractProofs2 LV.Err.NewModel LV.Err.NewProofs.
+Require Import LV.Err.ErrBase LV.Gen.ErrnoGen LV.Err.OrderModel LV.Err.OrderProofs LV.Err.ContractModel LV.Err.ContractProofs.
+Require Import LV.Err.RefutedModel LV.Err.ContractProofs2 LV.Err.NewModel LV.Err.NewProofs LV.Err.DataGetters.
+Require LV.Data.DataModel.
 Require Import QArith.
 Open Scope Z_scope.
 
@@ -27,12 +38,35 @@ Theorem errno_table_outside : forall n, (n < 0 \/ 6 < n) -> gen_errno_of_code n 
 Proof. exact errno_table_outside_l. Qed.
 Print Assumptions errno_table_outside.
 
-(* 2. vnadata family (26 functions), for every object summary, every handle (NULL or valid) and
+(* 2. The check / write machine: a body is an ordered list of checks, early exits and writes; a write
+      in front of a refusing check shows in the state a refused call returns. *)
+
+(* for every state type and every body whose checks all precede its first write: a call refused by a
+   check returns the state it was given *)
+Theorem ordered_body_refused_unchanged : forall (St : Type) (b : list (act St)) s s' v r,
+  checks_first (map kind b) = true -> run b s = (s', MRefused v r) -> s' = s.
+Proof. exact run_refused_unchanged. Qed.
+Print Assumptions ordered_body_refused_unchanged.
+
+(* the premise is needed (executable instances: write-then-check changes the state of the refused call,
+   check-then-write does not) *)
+Theorem model_variant_write_before_check :
+  run [AWrite false (fun x : nat => (S x, None)); ACheck (fun _ => Some (VM1, Via USAGE))] 5%nat = (6%nat, MRefused VM1 (Via USAGE)) /\
+  checks_first (map kind [AWrite false (fun x : nat => (S x, None)); ACheck (fun _ : nat => Some (VM1, Via USAGE))]) = false /\
+  run [ACheck (fun x : nat => if Nat.eqb x 5%nat then Some (VM1, Via USAGE) else None); AWrite false (fun x => (S x, None))] 5%nat
+    = (5%nat, MRefused VM1 (Via USAGE)) /\
+  run [ACheck (fun x : nat => if Nat.eqb x 5%nat then Some (VM1, Via USAGE) else None); AWrite false (fun x => (S x, None))] 4%nat
+    = (5%nat, MPass).
+Proof. exact model_variant_write_before_check. Qed.
+Print Assumptions model_variant_write_before_check.
+
+(* 3. vnadata family (26 functions), for every object summary, every handle (NULL or valid) and
       every argument tuple over Z. *)
 
-(* every refusal returns the function's documented failure value, leaves errno = EINVAL (through
-   the generated table), and calls the error function exactly once - or not at all when the
-   handle is NULL and there is no object to take the error function from *)
+(* every refusal returns the failure value of the function's return type (doc_fval: the model takes it
+   from that table, the tie compares it with the library), leaves errno = EINVAL (through the generated
+   table), and calls the error function exactly once - or not at all when the handle is NULL and there
+   is no object to take the error function from *)
 Theorem data_fail_classified : forall h c v r,
   check_data h c = Refuse v r ->
   v = doc_fval c /\ actual_errno r = E_INVAL /\
@@ -40,14 +74,22 @@ Theorem data_fail_classified : forall h c v r,
 Proof. exact data_fail_classified_l. Qed.
 Print Assumptions data_fail_classified.
 
-(* never stuck: every tuple is either passed on to the function's work or refused *)
-Theorem data_total : forall h c, check_data h c = Pass \/ exists v r, check_data h c = Refuse v r.
-Proof. exact data_total_l. Qed.
-Print Assumptions data_total.
+(* the NULL handle: EINVAL without a report exactly for the functions whose NULL test precedes every
+   dereference of the pointer in the C text (null_checked, generated); the others dereference it and
+   the model gives no answer (as found: the inline vnadata_set_frequency of vnadata.h) *)
+Theorem data_null_handle : forall c,
+  (null_checked c = true -> check_data None c = Refuse (doc_fval c) (Direct E_INVAL)) /\
+  (null_checked c = false -> check_data None c = Fault).
+Proof. exact data_null_handle_l. Qed.
+Print Assumptions data_null_handle.
+
+Theorem data_fault_iff : forall h c, check_data h c = Fault <-> (h = None /\ null_checked c = false).
+Proof. exact data_fault_iff_l. Qed.
+Print Assumptions data_fault_iff.
 
 (* the coded tests refuse exactly the tuples the manual excludes (indices outside the dimensions,
-   dimensions inconsistent with the type, z0 queries in the wrong z0 mode, precision < 1, ...),
-   for the calls whose port test is strict in the C text (all calls when candidate D4 is repaired) *)
+   dimensions inconsistent with the type or whose product does not fit an int, z0 queries in the wrong
+   z0 mode, precision < 1, ...), for the calls whose port test is strict in the C text *)
 Theorem data_refusal_iff_invalid : forall s c,
   0 <= d_freqs s -> port_test_strict c = true ->
   is_pass (check_data_some s c) = doc_data_valid s c.
@@ -65,29 +107,70 @@ Theorem data_port_index_n : forall s f,
 Proof. exact data_port_index_n_l. Qed.
 Print Assumptions data_port_index_n.
 
-(* a refused call returns before any write: for every abstraction of the work and of the rest of
-   the object, the object after a refusal is the object before it - for every function except
-   vnadata_init ... *)
-Theorem data_refused_unchanged : forall (payload : Type) work wipe (o : dobj payload) c v r,
-  is_init c = false ->
-  snd (data_step payload work wipe o c) = Refuse v r -> fst (data_step payload work wipe o c) = o.
+(* the hand-written list of tests has one entry per refusing statement of the C function *)
+Theorem data_order_fits : forall c, count_checks (dcall_order c) = length (data_checks c).
+Proof. exact data_order_fits_l. Qed.
+Print Assumptions data_order_fits.
+
+(* as found in the C text: every function of the family except vnadata_init has all its handle tests and
+   argument checks in front of its first write; vnadata_init = two writes (resize to empty, set_all_z0)
+   followed by the body of vnadata_resize *)
+Theorem data_orders_checks_first : forall c, is_init c = false -> checks_first (dcall_order c) = true.
+Proof. exact data_orders_checks_first_l. Qed.
+Print Assumptions data_orders_checks_first.
+
+Theorem data_init_order :
+  gen_order_vnadata_init = EvW :: EvW :: gen_order_vnadata_resize /\ checks_first gen_order_vnadata_init = false.
+Proof. exact data_init_order_l. Qed.
+Print Assumptions data_init_order.
+
+(* for every function whose generated order has all refusing checks before the first write, every
+   abstraction of the rest of the object and of the writes: a refused call leaves the object equal *)
+Theorem data_refused_unchanged : forall (payload : Type) work (o : dobj payload) c v r,
+  checks_first (dcall_order c) = true ->
+  snd (data_step payload work o c) = Refuse v r -> fst (data_step payload work o c) = o.
 Proof. exact data_refused_unchanged_l. Qed.
 Print Assumptions data_refused_unchanged.
 
-(* ... which, as coded, has already emptied the object when its arguments are refused (the
+(* ... and then no getter's answer changes: with the full vnadata_t model of property C15 as the rest of
+   the object, every operation of that model - the getters among them - answers after the refused call
+   as before it, and the observation through all public getters is the same *)
+Theorem data_refused_getters_unchanged : forall (V : Type) (vzero vdef : V) (Q : LV.Data.DataModel.quirks) work (o : dobj (LV.Data.DataModel.vd V)) c v r,
+  checks_first (dcall_order c) = true ->
+  snd (data_step _ work o c) = Refuse v r ->
+  forall g : LV.Data.DataModel.op V,
+    snd (LV.Data.DataModel.step V vzero vdef Q (o_rest _ (fst (data_step _ work o c))) g)
+      = snd (LV.Data.DataModel.step V vzero vdef Q (o_rest _ o) g) /\
+    LV.Data.DataModel.observe V (o_rest _ (fst (data_step _ work o c))) = LV.Data.DataModel.observe V (o_rest _ o).
+Proof. exact data_refused_getters_unchanged_l. Qed.
+Print Assumptions data_refused_getters_unchanged.
+
+(* link between the ordered body and the decision function the other theorems speak about: the outcome
+   of a step is check_data_some on the summary the call was given *)
+Theorem data_step_outcome : forall (payload : Type) work (o : dobj payload) c,
+  is_init c = false -> snd (data_step payload work o c) = check_data_some (o_sum payload o) c.
+Proof. exact data_step_outcome_l. Qed.
+Print Assumptions data_step_outcome.
+
+Theorem data_init_outcome : forall (payload : Type) work (o : dobj payload) t r c f,
+  snd (data_step payload work o (CInit t r c f)) = check_resize t r c f.
+Proof. exact data_init_outcome_l. Qed.
+Print Assumptions data_init_outcome.
+
+(* vnadata_init as coded: when its arguments are refused the object has already been emptied (the
    property asks only that a failed init leave a usable object) *)
-Theorem data_init_refused_cleared : forall (payload : Type) work wipe (o : dobj payload) t r c f v rp,
-  snd (data_step payload work wipe o (CInit t r c f)) = Refuse v rp ->
-  fst (data_step payload work wipe o (CInit t r c f)) = mkdobj payload (mkdsum 0 0 0 0 false) (wipe (o_rest payload o)).
+Theorem data_init_refused_cleared : forall (payload : Type) work (o : dobj payload) t r c f v rp,
+  snd (data_step payload work o (CInit t r c f)) = Refuse v rp ->
+  o_sum payload (fst (data_step payload work o (CInit t r c f))) = mkdsum 0 0 0 0 false.
 Proof. exact data_init_refused_cleared_l. Qed.
 Print Assumptions data_init_refused_cleared.
 
-(* usable after every outcome: the invariant under which all checks are defined (non-negative
-   dimensions consistent with the type) holds after every call, refused or not *)
-Theorem data_usable_after_failure : forall (payload : Type) work wipe (o : dobj payload) c,
-  data_inv (o_sum payload o) -> data_inv (o_sum payload (fst (data_step payload work wipe o c))).
-Proof. exact data_usable_after_l. Qed.
-Print Assumptions data_usable_after_failure.
+(* the invariant under which all checks are defined (non-negative dimensions consistent with the type)
+   holds after every call; the content is in the accepted calls and in the refused vnadata_init *)
+Theorem data_inv_preserved : forall (payload : Type) work (o : dobj payload) c,
+  data_inv (o_sum payload o) -> data_inv (o_sum payload (fst (data_step payload work o c))).
+Proof. exact data_inv_preserved_l. Qed.
+Print Assumptions data_inv_preserved.
 
 Theorem data_contract_satisfiable :
   check_data (Some (mkdsum 1 2 2 3 false)) (CGetCell 3 0 0) = Refuse VHUGE (Via USAGE) /\
@@ -99,25 +182,56 @@ Theorem data_contract_satisfiable :
 Proof. exact data_refusal_example. Qed.
 Print Assumptions data_contract_satisfiable.
 
-(* 3. vnacal query family: vnacal_get_* (any failure value), vnacal_find_calibration,
-      vnacal_delete_calibration, the ci argument of vnacal_property_*; every slot table, every ci
-      and name. *)
+(* all hypotheses of data_refused_unchanged / data_init_refused_cleared / data_refusal_iff_invalid met by
+   concrete calls (the rest of the object is a counter of the writes made) *)
+Theorem data_step_satisfiable :
+  let work := fun (_ : dcall) (_ : nat) (o : dobj nat) => S (o_rest nat o) in
+  let o := mkdobj nat (mkdsum 1 2 2 3 false) 7%nat in
+  checks_first (dcall_order (CSetCell 3 0 0)) = true /\
+  data_step nat work o (CSetCell 3 0 0) = (o, Refuse VM1 (Via USAGE)) /\
+  data_step nat work o (CSetCell 2 1 1) = (mkdobj nat (mkdsum 1 2 2 3 false) 8%nat, Pass) /\
+  data_step nat work o (CResize 0 65536 65536 0) = (o, Refuse VM1 (Via USAGE)) /\
+  snd (data_step nat work o (CInit 2 3 3 3)) = Refuse VM1 (Via USAGE) /\
+  fst (data_step nat work o (CInit 2 3 3 3)) = mkdobj nat (mkdsum 0 0 0 0 false) 9%nat /\
+  port_test_strict (CGetZ0 2) = true /\ 0 <= d_freqs (o_sum nat o).
+Proof. repeat split; vm_compute; try reflexivity; discriminate. Qed.
+Print Assumptions data_step_satisfiable.
 
-(* the silent queries: failure value of the function, EINVAL (ENOENT for a name or a calibration
-   that is not there), and the error function is never called *)
+(* 4. vnacal query family: the nine vnacal_get_* of vnacal_get.c, vnacal_find_calibration,
+      vnacal_delete_calibration, the ci argument of the eight vnacal_property_*; every slot table, every
+      ci and name. *)
+
+(* the silent queries: failure value of the function's return type (getter_fval / propfn_fval: model
+   tables, compared with the library by the tie), EINVAL (ENOENT for a name or a calibration that is not
+   there; vnacal(3) names no class for a missing index of delete, both documented ones are admitted),
+   and the error function is never called *)
 Theorem query_fail_classified : forall h c v r,
   check_query h c = Refuse v r -> doc_query_refusal h c (Refuse v r).
 Proof. exact query_fail_classified_l. Qed.
 Print Assumptions query_fail_classified.
 
-Theorem query_total : forall h c, check_query h c = Pass \/ exists v r, check_query h c = Refuse v r.
-Proof. exact query_total_l. Qed.
-Print Assumptions query_total.
+Theorem query_null_handle : forall c,
+  check_query None c = if fst (qcall_handle c) then Refuse (query_fval c) (Direct E_INVAL) else Fault.
+Proof. exact query_null_handle_l. Qed.
+Print Assumptions query_null_handle.
 
-Theorem query_refused_unchanged : forall sl c v r,
-  snd (query_step sl c) = Refuse v r -> fst (query_step sl c) = sl.
+(* as found: the C functions behind the four kinds of call test before they write (the deletion sits on
+   an early successful exit) and the getters write nothing *)
+Theorem query_orders_checks_first : forall c, checks_first (qcall_order c) = true.
+Proof. exact query_orders_checks_first_l. Qed.
+Print Assumptions query_orders_checks_first.
+
+Theorem query_refused_unchanged : forall pre sl c v r,
+  checks_first (qcall_order c) = true ->
+  snd (query_step pre sl c) = Refuse v r -> fst (query_step pre sl c) = sl.
 Proof. exact query_refused_unchanged_l. Qed.
 Print Assumptions query_refused_unchanged.
+
+Theorem query_step_spec : forall pre sl c,
+  checks_first (qcall_order c) = true ->
+  query_step pre sl c = (match check_query_some sl c with Pass => slots_after sl c | _ => sl end, check_query_some sl c).
+Proof. exact query_step_spec_l. Qed.
+Print Assumptions query_step_spec.
 
 (* a getter passes exactly for the indices that hold a calibration *)
 Theorem query_get_pass_iff : forall sl v ci, check_get sl v ci = Pass <-> exists n, slot_at sl ci = Some n.
@@ -134,28 +248,51 @@ Proof. exact add_calibration_index_l. Qed.
 Print Assumptions add_calibration_index.
 
 Theorem query_contract_satisfiable :
-  check_query (Some [Some 10; None; Some 12]) (QGet VNULL 1) = Refuse VNULL (Direct E_INVAL) /\
-  check_query (Some [Some 10; None; Some 12]) (QGet VNULL 2) = Pass /\
-  check_query (Some [Some 10; None; Some 12]) (QGet VHUGE 3) = Refuse VHUGE (Direct E_INVAL) /\
+  check_query (Some [Some 10; None; Some 12]) (QGet GName 1) = Refuse VNULL (Direct E_INVAL) /\
+  check_query (Some [Some 10; None; Some 12]) (QGet GName 2) = Pass /\
+  check_query (Some [Some 10; None; Some 12]) (QGet GFmax 3) = Refuse VHUGE (Direct E_INVAL) /\
   check_query (Some [Some 10; None; Some 12]) (QFind 11) = Refuse VM1 (Direct E_NOENT) /\
   check_query (Some [Some 10; None; Some 12]) (QDelete 1) = Refuse VM1 (Direct E_NOENT) /\
-  check_query (Some [Some 10; None; Some 12]) (QProperty VM1 (-1)) = Pass /\
+  check_query (Some [Some 10; None; Some 12]) (QProperty PfType (-1)) = Pass /\
   add_calibration [Some 10; None; Some 12] 11 = ([Some 10; Some 11; Some 12], 1) /\
   add_calibration [Some 10] 11 = ([Some 10; Some 11; None; None; None; None; None; None], 1) /\
   add_calibration [Some 10; None; Some 12] 12 = ([Some 10; None; Some 12], 2).
 Proof. exact query_examples. Qed.
 Print Assumptions query_contract_satisfiable.
 
-(* 4. "A rejected standard adds nothing" and "a refused property set changes nothing".  Both were
-      false of the code as found (D17, D54); the models of LV.Err.RefutedModel follow the repaired
-      order (D54: repaired in the tree; D17: fixes/D17_*.diff, and the tie uses
-      add_standard_current, which follows whichever order translate/errno_table.py finds in the C
-      text).  The old orders are kept as regression witnesses. *)
+Theorem query_step_satisfiable :
+  checks_first (qcall_order (QDelete 1)) = true /\
+  query_step (fun sl => sl) [Some 10; None; Some 12] (QDelete 1) = ([Some 10; None; Some 12], Refuse VM1 (Direct E_NOENT)) /\
+  query_step (fun sl => sl) [Some 10; None; Some 12] (QDelete 2) = ([Some 10; None; None], Pass).
+Proof. repeat split. Qed.
+Print Assumptions query_step_satisfiable.
 
-(* for every parameter table (valid, unknown), every summary of the vnacal_new_t and every s-matrix:
-   a refused standard leaves registered parameters, unknown count and measurement count as they were *)
-Theorem rejected_standard_adds_nothing : forall valid unknown s cells s' v r,
-  add_standard valid unknown s cells = (s', Refuse v r) -> s' = s.
+(* 5. "A rejected standard adds nothing" and "a refused property set changes nothing".  Both were false
+      of the code as first found (D17, D54) and are repaired in /repo; which order the working tree has is
+      read from the C text (gen_add_common_prevalidates; gen_order_vnaproperty_vset,
+      gen_order_vnaproperty_vset_subtree) and is a premise of the theorems. *)
+
+(* the registration model in the order found in the C text (the one the tie runs): for every parameter
+   table (valid, unknown), every summary and every s-matrix, when the validation pass precedes the
+   registration loop a refused standard leaves registered parameters, unknown count and measurement
+   count as they were *)
+Theorem rejected_standard_summary_unchanged : forall valid unknown s cells s' v r,
+  gen_add_common_prevalidates = true ->
+  add_standard_current valid unknown s cells = (s', Refuse v r) -> s' = s.
+Proof. exact rejected_standard_current_l. Qed.
+Print Assumptions rejected_standard_summary_unchanged.
+
+(* the same over the whole modelled vnacal_new_t (type, dimensions, frequency state, error-model flag,
+   parameter summary, abstract rest), for every refusal of _vnacal_new_add_common - dimension and port
+   map tests, invalid parameter, singular 'a' matrix, incomplete S with T16/U16: the object is the one
+   the call was given, and the refusal came from an argument check, none from the registration.
+   (Not in the model: correlated-parameter count, reference counts of the parameters, allocation failure
+   inside the registration loop - C12.) *)
+Theorem rejected_standard_adds_nothing : forall (payload : Type) valid unknown work pre (o : nobj payload) a v r,
+  gen_add_common_prevalidates = true -> ncall_ordered (NAdd a) = true ->
+  snd (new_step payload valid unknown work pre o (NAdd a)) = Refuse v r ->
+  fst (new_step payload valid unknown work pre o (NAdd a)) = o /\
+  exists v' r', new_run payload valid unknown work pre o (NAdd a) = (o, MRefused v' r').
 Proof. exact rejected_standard_adds_nothing_l. Qed.
 Print Assumptions rejected_standard_adds_nothing.
 
@@ -165,59 +302,89 @@ Theorem register_after_check : forall valid unknown cells s,
 Proof. exact register_after_check_l. Qed.
 Print Assumptions register_after_check.
 
-(* the repair refuses exactly the standards the old order refused and does the same on the others *)
-Theorem add_standard_same_verdict : forall valid unknown s cells,
-  is_pass (snd (add_standard valid unknown s cells)) = is_pass (snd (add_standard_before_fix valid unknown s cells)) /\
-  (is_pass (snd (add_standard valid unknown s cells)) = true ->
-   add_standard valid unknown s cells = add_standard_before_fix valid unknown s cells).
+(* the two hand-written orders (validate first / register as you go) refuse the same standards and do
+   the same on the accepted ones: a statement about the two models, not about the code *)
+Theorem model_variant_orders_same_verdict : forall valid unknown s cells,
+  is_pass (snd (add_standard_validate_first valid unknown s cells)) = is_pass (snd (add_standard_register_first valid unknown s cells)) /\
+  (is_pass (snd (add_standard_validate_first valid unknown s cells)) = true ->
+   add_standard_validate_first valid unknown s cells = add_standard_register_first valid unknown s cells).
 Proof. exact add_standard_same_verdict_l. Qed.
-Print Assumptions add_standard_same_verdict.
+Print Assumptions model_variant_orders_same_verdict.
+
+(* model variant (register as you go, the order before the repair of D17): a standard refused for a later
+   handle leaves the earlier ones registered and counted - the premise of the two theorems above is needed *)
+Theorem model_variant_register_first_keeps_registrations :
+  exists valid unknown s cells s',
+    add_standard_register_first valid unknown s cells = (s', Refuse VM1 (Via USAGE)) /\ s' <> s.
+Proof. exact model_variant_register_first_keeps_registrations_l. Qed.
+Print Assumptions model_variant_register_first_keeps_registrations.
 
 Theorem rejected_standard_satisfiable :
-  add_standard (fun h => (0 <=? h) && (h <=? 5)) (fun h => h =? 5) (mknew [0] 0 0) [5; 99]
-    = (mknew [0] 0 0, Refuse VM1 (Via USAGE)) /\
-  add_standard (fun h => (0 <=? h) && (h <=? 5)) (fun h => h =? 5) (mknew [0] 0 0) [5; 3]
-    = (mknew [0; 5; 3] 1 1, Pass).
-Proof. exact rejected_standard_example. Qed.
+  let valid := fun h => (0 <=? h) && (h <=? 5) in
+  let unknown := fun h => h =? 5 in
+  let o := mknobj unit (mknsum T8 2 2 3 true false (mknew [0] 0 0)) tt in
+  let bad := mkadd false None 2 2 2 2 (Some [1; 2]) [5; 99] false false in
+  let good := mkadd false None 2 2 2 2 (Some [1; 2]) [5; 3] false false in
+  gen_add_common_prevalidates = true /\ ncall_ordered (NAdd bad) = true /\
+  new_step unit valid unknown (fun o _ => o) (fun o => o) o (NAdd bad) = (o, Refuse VM1 (Via USAGE)) /\
+  new_step unit valid unknown (fun o _ => o) (fun o => o) o (NAdd good)
+    = (mknobj unit (mknsum T8 2 2 3 true false (mknew [0; 5; 3] 1 1)) tt, Pass) /\
+  add_standard_current valid unknown (mknew [0] 0 0) [5; 99] = (mknew [0] 0 0, Refuse VM1 (Via USAGE)).
+Proof. repeat split; vm_compute; reflexivity. Qed.
 Print Assumptions rejected_standard_satisfiable.
 
-(* regression witness (order before the repair of D17): a standard refused for a later handle left
-   the earlier ones registered and counted as unknowns *)
-Theorem rejected_standard_adds_nothing_before_fix_D17_refuted :
-  exists valid unknown s cells s',
-    add_standard_before_fix valid unknown s cells = (s', Refuse VM1 (Via USAGE)) /\ s' <> s.
-Proof. exact rejected_standard_adds_nothing_before_fix_D17_refuted_l. Qed.
-Print Assumptions rejected_standard_adds_nothing_before_fix_D17_refuted.
-
-(* for every tree, path and value: a refused vnaproperty_set leaves the tree as it was, returns -1
-   with EINVAL and reports nothing; likewise vnaproperty_set_subtree (NULL) *)
-Theorem refused_property_set_unchanged : forall t path value t' v r,
-  vset t path value = (t', Refuse v r) -> t' = t /\ v = VM1 /\ r = Direct E_INVAL /\ callbacks r = 0%nat.
+(* vnaproperty_vset / vnaproperty_vset_subtree over paths of map keys: for every order of their
+   statements that has the tests in front of the first write, every tree and every descriptor (parse
+   result, path, kind of the last expression node, token after the path): a refused call leaves the
+   tree as it was, returns -1 / NULL with EINVAL and reports nothing *)
+Theorem refused_property_set_unchanged : forall sk t d t' v r,
+  checks_first sk = true ->
+  vset_in_order sk t d = (t', Refuse v r) -> t' = t /\ v = VM1 /\ r = Direct E_INVAL /\ callbacks r = 0%nat.
 Proof. exact refused_property_set_unchanged_l. Qed.
 Print Assumptions refused_property_set_unchanged.
 
-Theorem refused_set_subtree_unchanged : forall t path trailing t' v r,
-  vset_subtree t path trailing = (t', Refuse v r) -> t' = t /\ v = VNULL /\ r = Direct E_INVAL.
+Theorem refused_set_subtree_unchanged : forall sk t d t' v r,
+  checks_first sk = true ->
+  vset_subtree_in_order sk t d = (t', Refuse v r) -> t' = t /\ v = VNULL /\ r = Direct E_INVAL.
 Proof. exact refused_set_subtree_unchanged_l. Qed.
 Print Assumptions refused_set_subtree_unchanged.
 
-Theorem vset_accepted_same : forall t path v, vset t path (Some v) = vset_before_fix t path (Some v).
-Proof. exact vset_accepted_same_l. Qed.
-Print Assumptions vset_accepted_same.
+(* as found in the C text: both functions test first; three / two refusing statements, as in the model *)
+Theorem vset_orders :
+  checks_first gen_order_vnaproperty_vset = true /\
+  checks_first gen_order_vnaproperty_vset_subtree = true /\
+  count_checks gen_order_vnaproperty_vset = 3%nat /\
+  count_checks gen_order_vnaproperty_vset_subtree = 2%nat.
+Proof. exact vset_orders_l. Qed.
+Print Assumptions vset_orders.
+
+(* an accepted call, in the order of the working tree: the value (or null) assigned at the path *)
+Theorem vset_accepted : forall t path v,
+  vset t (mkpdesc true path true (TkAssign v)) = (assign path (PScalar v) t, Pass) /\
+  vset t (mkpdesc true path true TkHash) = (assign path PNull t, Pass) /\
+  vset_subtree t (mkpdesc true path true TkEof) = (conform path t, Pass).
+Proof. exact vset_accepted_l. Qed.
+Print Assumptions vset_accepted.
 
 Theorem property_set_satisfiable :
-  vset (PMap [(1, PScalar 7)]) [1; 2] None = (PMap [(1, PScalar 7)], Refuse VM1 (Direct E_INVAL)) /\
-  vset (PMap [(1, PScalar 7)]) [1; 2] (Some (PScalar 9)) = (PMap [(1, PMap [(2, PScalar 9)])], Pass).
+  vset (PMap [(1, PScalar 7)]) (mkpdesc true [1; 2] true TkEof) = (PMap [(1, PScalar 7)], Refuse VM1 (Direct E_INVAL)) /\
+  vset (PMap [(1, PScalar 7)]) (mkpdesc true [1] false (TkAssign 9)) = (PMap [(1, PScalar 7)], Refuse VM1 (Direct E_INVAL)) /\
+  vset (PMap [(1, PScalar 7)]) (mkpdesc false [] true TkOther) = (PMap [(1, PScalar 7)], Refuse VM1 (Direct E_INVAL)) /\
+  vset (PMap [(1, PScalar 7)]) (mkpdesc true [1; 2] true (TkAssign 9)) = (PMap [(1, PMap [(2, PScalar 9)])], Pass) /\
+  vset_subtree (PMap [(1, PScalar 7)]) (mkpdesc true [1; 2] true (TkAssign 9)) = (PMap [(1, PScalar 7)], Refuse VNULL (Direct E_INVAL)) /\
+  vset_subtree (PMap [(1, PScalar 7)]) (mkpdesc true [1; 2] true TkEof) = (PMap [(1, PMap [(2, PNull)])], Pass).
 Proof. exact property_set_example. Qed.
 Print Assumptions property_set_satisfiable.
 
-(* regression witness (order before the repair of D54) *)
-Theorem refused_property_set_before_fix_D54_refuted :
-  exists t path t' v r, vset_before_fix t path None = (t', Refuse v r) /\ t' <> t.
-Proof. exact refused_property_set_before_fix_D54_refuted_l. Qed.
-Print Assumptions refused_property_set_before_fix_D54_refuted.
+(* model variant (descend before the tests, the order before the repair of D54): root {1: "7"}, set "1.2"
+   without a value is refused and leaves {1: {2: ~}} *)
+Theorem model_variant_descend_first_changes_tree :
+  checks_first order_variant_descend_first = false /\
+  exists t d t' v r, vset_in_order order_variant_descend_first t d = (t', Refuse v r) /\ t' <> t.
+Proof. exact model_variant_descend_first_changes_tree_l. Qed.
+Print Assumptions model_variant_descend_first_changes_tree.
 
-(* 5. vnacal_new family (vnacal_new_alloc, set_frequency_vector, set_z0, every vnacal_new_add_*
+(* 6. vnacal_new family (vnacal_new_alloc, set_frequency_vector, set_z0, every vnacal_new_add_*
       through _vnacal_new_add_common, set_m_error, set_*_tolerance, set_iteration_limit,
       set_pvalue_limit, solve), prologues as coded in LV.Err.NewModel; for every parameter table
       (valid), every summary of the vnacal_new_t, NULL or valid handle, and all arguments. *)
@@ -259,16 +426,40 @@ Theorem new_errno : forall valid s c v r,
 Proof. exact new_errno_l. Qed.
 Print Assumptions new_errno.
 
-Theorem new_total : forall valid h c, check_new valid h c = Pass \/ exists v r, check_new valid h c = Refuse v r.
-Proof. exact new_total_l. Qed.
-Print Assumptions new_total.
+(* as found in the C text: the argument checks of every function of the family precede its first write
+   (for vnacal_new_solve: its one argument check, "the frequency vector was given") *)
+Theorem new_orders_checks_first : forall c, ncall_ordered c = true.
+Proof. exact new_orders_checks_first_l. Qed.
+Print Assumptions new_orders_checks_first.
 
-(* for every abstraction of the work (copying the vector, building and linking the measurement,
-   solving): a refused call returns the object itself *)
-Theorem new_refused_unchanged : forall (payload : Type) valid work (o : nobj payload) c v r,
-  snd (new_step payload valid work o c) = Refuse v r -> fst (new_step payload valid work o c) = o.
-Proof. exact new_refused_unchanged_l. Qed.
-Print Assumptions new_refused_unchanged.
+(* for every function whose generated order has the argument checks before the first write, every
+   abstraction of the work and of the rest of the object: a call refused BY AN ARGUMENT CHECK leaves the
+   object equal.  A failure inside the work (MLate: the numeric kernels of vnacal_new_solve, which have
+   written results of earlier frequencies by then) is not covered: see property C20 for a failed solve. *)
+Theorem new_arg_refused_unchanged : forall (payload : Type) valid unknown work pre (o : nobj payload) c o' v r,
+  ncall_ordered c = true -> new_run payload valid unknown work pre o c = (o', MRefused v r) -> o' = o.
+Proof. exact new_arg_refused_unchanged_l. Qed.
+Print Assumptions new_arg_refused_unchanged.
+
+(* link between the step and the decision function check_new_some of the theorems above *)
+Theorem new_step_outcome : forall (payload : Type) valid unknown work pre (o : nobj payload) c,
+  gen_add_common_prevalidates = true -> ncall_ordered c = true ->
+  snd (new_step payload valid unknown work pre o c) = check_new_some valid (no_sum payload o) c.
+Proof. exact new_step_outcome_l. Qed.
+Print Assumptions new_step_outcome.
+
+Theorem new_step_satisfiable :
+  let valid := fun h => (0 <=? h) && (h <=? 5) in
+  let o := mknobj nat (mknsum T8 2 2 3 false false (mknew [0] 0 0)) 0%nat in
+  let bump := fun (x : nobj nat) (_ : ncall) => mknobj nat (no_sum nat x) (S (no_rest nat x)) in
+  ncall_ordered (NSetPvalue (Some 2%Q)) = true /\
+  new_run nat valid (fun _ => false) bump (fun x => x) o (NSetPvalue (Some 2%Q)) = (o, MRefused VM1 (Via USAGE)) /\
+  new_run nat valid (fun _ => false) bump (fun x => x) o (NSetPvalue (Some (1#2)%Q)) = (bump o NSetZ0, MPass) /\
+  new_run nat valid (fun _ => false) bump (fun x => x) o (NSolve None) = (o, MRefused VM1 (Via USAGE)) /\
+  new_run nat valid (fun _ => false) bump (fun x => x) (mknobj nat (mknsum T8 2 2 3 true false (mknew [0] 0 0)) 0%nat) (NSolve (Some MATH))
+    = (mknobj nat (mknsum T8 2 2 3 true false (mknew [0] 0 0)) 1%nat, MLate VM1 (Via MATH)).
+Proof. repeat split; vm_compute; reflexivity. Qed.
+Print Assumptions new_step_satisfiable.
 
 (* an accepted frequency vector has no NaN, no negative entry and is strictly ascending (and the
    parameters in use cover it); a NULL vector is refused *)
@@ -331,7 +522,7 @@ Theorem new_contract_satisfiable :
 Proof. exact new_examples. Qed.
 Print Assumptions new_contract_satisfiable.
 
-(* 6. Parameter family (vnacal_make_{scalar,vector,unknown,correlated}_parameter,
+(* 7. Parameter family (vnacal_make_{scalar,vector,unknown,correlated}_parameter,
       vnacal_delete_parameter, vnacal_get_parameter_value) and vnadata_convert. *)
 
 Theorem param_fail_classified : forall h c v r,
@@ -340,12 +531,14 @@ Theorem param_fail_classified : forall h c v r,
 Proof. exact param_fail_classified_l. Qed.
 Print Assumptions param_fail_classified.
 
-Theorem param_total : forall h c, check_param h c = Pass \/ exists v r, check_param h c = Refuse v r.
-Proof. exact param_total_l. Qed.
-Print Assumptions param_total.
+(* as found in the C text: every function of the family tests before it writes *)
+Theorem param_orders_checks_first : forall c, checks_first (pcall_order c) = true.
+Proof. exact param_orders_checks_first_l. Qed.
+Print Assumptions param_orders_checks_first.
 
-Theorem param_refused_unchanged : forall work tb c v r,
-  snd (param_step work tb c) = Refuse v r -> fst (param_step work tb c) = tb.
+Theorem param_refused_unchanged : forall work pre tb c v r,
+  checks_first (pcall_order c) = true ->
+  snd (param_step work pre tb c) = Refuse v r -> fst (param_step work pre tb c) = tb.
 Proof. exact param_refused_unchanged_l. Qed.
 Print Assumptions param_refused_unchanged.
 
@@ -391,23 +584,37 @@ Theorem param_contract_satisfiable :
 Proof. exact param_examples. Qed.
 Print Assumptions param_contract_satisfiable.
 
-(* 7. errno on return = errno inside the error function, for the functions that clean up after
+Theorem param_step_satisfiable :
+  let tb := [PScalarP; PScalarP; PScalarP; PScalarP; PVectorP 3 1 3; PUnknownP None None; PFree] in
+  checks_first (pcall_order (PMakeUnknown 6)) = true /\
+  param_step (fun t _ => t ++ [PScalarP]) (fun t => t) tb (PMakeUnknown 6) = (tb, Refuse VM1 (Via USAGE)) /\
+  param_step (fun t _ => t ++ [PScalarP]) (fun t => t) tb (PMakeUnknown 3) = (tb ++ [PScalarP], Pass).
+Proof. repeat split. Qed.
+Print Assumptions param_step_satisfiable.
+
+(* 8. errno on return = errno inside the error function, for the functions that clean up after
       reporting (vnadata_save, vnadata_load, vnacal_save, vnacal_load).  None of them saves and
       restores errno; what keeps the reported value is that every clean-up call leaves errno alone. *)
 
-Theorem cleanup_preserves_reported_errno : forall e steps,
-  Forall (fun st => st = None) steps -> errno_after_cleanup e steps = e.
-Proof. exact cleanup_preserves_reported_errno_l. Qed.
-Print Assumptions cleanup_preserves_reported_errno.
+(* applied to the call lists the translator finds on the four clean-up paths: whatever each call does to
+   errno, as long as the calls of the benign list (fclose, free, the libyaml and library destructors)
+   leave it alone - which they do when they succeed: the trusted premise - errno on return is the
+   reported one *)
+Theorem cleanup_paths_preserve_errno : forall (effect : String.string -> option errno_class),
+  (forall c, existsb (String.eqb c) benign_cleanup_calls = true -> effect c = None) ->
+  forall p e, In p gen_cleanup_calls -> errno_after_cleanup e (map effect (snd p)) = e.
+Proof. exact cleanup_paths_preserve_errno_l. Qed.
+Print Assumptions cleanup_paths_preserve_errno.
 
-(* one disturbing call (e.g. an unlink that fails) after the report decides errno on return *)
-Theorem cleanup_last_disturbance : forall e steps e' rest,
-  Forall (fun st => st = None) rest -> errno_after_cleanup e (steps ++ Some e' :: rest) = e'.
-Proof. exact cleanup_last_disturbance_l. Qed.
-Print Assumptions cleanup_last_disturbance.
-
-(* the calls the translator finds on those clean-up paths are all in the list of calls that leave
-   errno alone when they succeed; the paths do not assign errno (translator) *)
+(* the calls the translator finds on those clean-up paths are all in the benign list; the paths do not
+   assign errno (translator) *)
 Theorem cleanup_calls_benign : forallb (fun p => all_benign (snd p)) gen_cleanup_calls = true.
 Proof. exact cleanup_calls_benign_l. Qed.
 Print Assumptions cleanup_calls_benign.
+
+(* specification level (a fold over option values, no C text involved): one disturbing call (e.g. an
+   unlink that fails) after the report decides errno on return *)
+Theorem cleanup_disturbance_decides_spec_level : forall e steps e' rest,
+  Forall (fun st => st = None) rest -> errno_after_cleanup e (steps ++ Some e' :: rest) = e'.
+Proof. exact cleanup_last_disturbance_l. Qed.
+Print Assumptions cleanup_disturbance_decides_spec_level.
